@@ -21,7 +21,7 @@ def run(c):
     events, owner = [], []
     for s in scen:
         if s["sc"] in deaths:
-            c.report("death:%s" % deaths[s["sc"]]["kind"], "process died producing a signed update", {"scenario": s, "death": deaths[s["sc"]]})
+            c.report("death:%s" % deaths[s["sc"]]["kind"], "process died producing a signed update", dict({"scenario": s, "death": deaths[s["sc"]]}, **c.rp("signvar", dict(s, burst=4), validate=("SignVarTrace", "SignVarTrace.cfg"), strip=("sc", "ev"))))
             continue
         for e in res.get(s["sc"], []):
             events.append({k: v for k, v in e.items() if k not in ("sc", "ev")}); owner.append(s["sc"])
@@ -57,7 +57,7 @@ def run(c):
                 ev2 = [{k: v for k, v in x.items() if k not in ("sc", "ev")} for x in evs]
                 return bool(ev2) and bool(c.validate_traces("SignVarTrace", "SignVarTrace.cfg", ev2))
             how = c.reproduce("signvar", s["sc"], still_bad, env=env)
-        c.report(key, "signed update for %s deviates: %s" % ({k: s[k] for k in ("name", "guid", "attrs", "payload", "tz", "via")}, why), {"scenario": s, "event": e, "reproduced": how})
+        c.report(key, "signed update for %s deviates: %s" % ({k: s[k] for k in ("name", "guid", "attrs", "payload", "tz", "via")}, why), dict({"scenario": s, "event": e, "reproduced": how}, **c.rp("signvar", dict(s, burst=4), validate=("SignVarTrace", "SignVarTrace.cfg"), strip=("sc", "ev"))))
     nsig = sum(1 for e in events if e.get("op") == "signvar")
     c.cov["evaluations"] = nsig
     c.cov["traces_validated_against_impl"] = len(scen)
